@@ -421,6 +421,8 @@ class MethodTranslator:
             f = ast.unparse(c.func)
             if f == "self._validate_data":
                 return cont(env)
+            if f in ("check_scalar", "check_type", "check_classes", "warnings.warn"):
+                return cont(env)       # parameter validation / warnings: raise or print, compute nothing
             if isinstance(c.func, ast.Attribute) and c.func.attr == "append" and isinstance(c.func.value, ast.Name):
                 name = c.func.value.id
                 pre = []
